@@ -70,10 +70,11 @@ theorem queries_order_match :
 /-- fileutil.writeJSON: temporary file first, rename second (model: cmpTmp, cmpCommit). -/
 theorem writeJSON_order_matches : order_writeJSON = ["writefile:lock", "ren:lock>-"] := by decide
 
-/-- fileutil.Move: the direct rename first; the lock name only in the copy fallback
-    (model: the single primitive `renWaitFinal`). -/
+/-- fileutil.Move: the direct rename first; the lock name only in the copy fallback, where the
+    copy gets its name BEFORE the original is removed (model: the single primitive `renWaitFinal`
+    for the rename path, Model/Move.lean `Order.renameFirst` for the copy path). -/
 theorem move_order_matches :
-    order_Move = ["ren:->-", "copyfile", "rm:-", "ren:lock>-"] := by decide
+    order_Move = ["ren:->-", "copyfile", "ren:lock>-", "rm:-"] := by decide
 
 end Sts.Orders
 
